@@ -16,11 +16,12 @@ class Killed(BaseException):
     """Unwinds a task that was terminated (SIGKILL / os._exit): AgileRL's `except Exception` does not catch it."""
 
 
-class Deadlock(Exception):
-    pass
+class Deadlock(BaseException):
+    """Nobody can ever run again while the client is blocked. A BaseException on purpose: the code under test wraps pending calls in
+    `except Exception` (close_extras does), and a hang must not be "handled" by the code that hangs."""
 
 
-class StepCap(Exception):
+class StepCap(BaseException):
     pass
 
 
